@@ -17,7 +17,7 @@ def optlang_dblmax(trace, violation):
     """optlang reports DBL_MAX for infinite bounds of a problem restored from GLPK's file format;
     a later solver switch writes that value into the new problem as a finite bound."""
     t = _text(violation)
-    return "1.7976931348623157e+308" in t and any(o["op"] in LIFECYCLE for o in trace["ops"])
+    return "1.7976931348623" in t and any(o["op"] in LIFECYCLE for o in trace["ops"])
 
 
 def optlang_exact_clone(trace, violation):
@@ -29,4 +29,11 @@ def optlang_exact_clone(trace, violation):
     return exact and any(o["op"] in LIFECYCLE for o in ops) and any(o["op"] == "enter" for o in ops)
 
 
-TRIGGERS = {"optlang_dblmax": optlang_dblmax, "optlang_exact_clone": optlang_exact_clone}
+def dict_direction_dropped(trace, violation):
+    """dict/JSON/YAML do not store the objective direction: a `min` model loads as `max`."""
+    d = (violation.get("detail") or {}).get("diff(loaded,saved)")
+    c = violation.get("culprit") or {}
+    return c.get("op") == "restart" and c.get("fmt") in ("dict", "json", "yaml") and d == ["/direction: max != min"]
+
+
+TRIGGERS = {"dict_direction_dropped": dict_direction_dropped, "optlang_dblmax": optlang_dblmax, "optlang_exact_clone": optlang_exact_clone}
